@@ -456,7 +456,7 @@ func (z *ZodSlice[T, R]) validateForEngine(
 
 	if schema, ok := z.internals.Element.(core.ZodSchema); ok && schema != nil {
 		for i, elem := range validated {
-			if err := validateElement(elem, schema); err != nil {
+			if err := validateElement(elem, schema, ctx); err != nil {
 				if zodErr, ok := errors.AsType[*issues.ZodError](err); ok {
 					for _, issue := range zodErr.Issues {
 						errs = append(errs, issues.ConvertZodIssueToRawWithProperties(issue, []any{i}))
